@@ -86,6 +86,39 @@ def main(tier, only=None):
     J = jobs(tier)
     if only:
         J = [j for j in J if re.search(only, j.name)]
-    return V.run_property("C05", J, tier, level="proof", assumptions=ASSUME, trusted_base=TRUSTED,
-                          min_obligations=100,
-                          technique="CBMC contract harness on the real vnadata_convert with recording contracts for the 90 vnaconv functions")
+    rc = V.run_property("C05", J, tier, level="proof", assumptions=ASSUME, trusted_base=TRUSTED,
+                        min_obligations=(100 if not only else 1),
+                        technique="CBMC contract harness on the real vnadata_convert with recording contracts for the 90 vnaconv functions")
+    if only and not re.search(only, "alias_zin"):
+        return rc
+    # The in-place clause has a second half the recording contracts cannot see: vnadata_convert(v, v, VPT_ZIN) hands
+    # the Zin functions an output vector laid over the input matrix, so each of them must give the same result then
+    # (obligation AL of the C04 generator, re-run here on the repository text of the 9 + 3 Zin functions).
+    import json
+    import subprocess
+    p = subprocess.run(["python3-vt", os.path.join(V.VERIF, "slvc", "slvc.py"), "--tier", "quick",
+                        "--only", "to(zi|zin)$", "--as-property", "C05"], stdout=subprocess.PIPE, stderr=subprocess.STDOUT, text=True)
+    summ = None
+    for ln in p.stdout.splitlines():
+        if ln.startswith("SLVC-SUMMARY "):
+            summ = json.loads(ln[len("SLVC-SUMMARY "):])
+        elif ln.startswith(("VIOLATION", "INFRA", "  failed")):
+            print(ln.replace("INFRA:", "INFRA: alias_zin:"))
+    evp = os.path.join(V.VERIF, "evidence", "C05.json")
+    if summ is None or p.returncode not in (0, 1):
+        print("INFRA: alias_zin: the aliasing obligations of the Zin functions could not be generated (slvc exit %d)" % p.returncode)
+        return rc if rc == 1 else 2
+    try:
+        ev = json.load(open(evp))
+        ev["coverage"]["obligations"] += summ["obligations"]
+        ev["coverage"]["discharged"] += summ["discharged"]
+        ev["coverage"]["alias_zin"] = dict(note="in-place obligations (AL) of the Zin functions, generated from the repository text by slvc and discharged by sympy",
+                                            **summ)
+        if p.returncode == 1:
+            ev["violations"] = ev.get("violations", 0) + (summ["obligations"] - summ["discharged"])
+        json.dump(ev, open(evp, "w"), indent=1)
+    except Exception as e:  # pragma: no cover
+        print("INFRA: alias_zin: cannot update evidence (%r)" % e)
+        return rc if rc == 1 else 2
+    print("C05 alias_zin: obligations=%d discharged=%d" % (summ["obligations"], summ["discharged"]))
+    return 1 if (rc == 1 or p.returncode == 1) else rc
